@@ -272,6 +272,21 @@ fn as_matrix(d: &[usize]) -> (Vec<usize>, usize, usize) {
 /// Returns `None` where the definition refuses (inner mismatch, leading dims not
 /// broadcastable, additive term not broadcastable to [rows, cols]).
 pub fn matmul(a: &T, at: bool, b: &T, bt: bool, c: Option<&T>) -> Option<T> {
+    if a.d.len() < 2 && b.d.len() < 2 && !at && !bt {
+        // two untransposed rank-1 operands: their dot product, shape [1]
+        if a.d[0] != b.d[0] || c.is_some() {
+            return None;
+        }
+        let col = T {
+            d: vec![b.d[0], 1],
+            v: b.v.clone(),
+            t: b.t.clone(),
+            ndir: b.ndir,
+        };
+        let mut r = matmul(a, false, &col, false, None)?;
+        r.d = vec![1];
+        return Some(r);
+    }
     let (la, ar, ac) = as_matrix(&a.d);
     let (lb, br, bc) = as_matrix(&b.d);
     let (m, ka) = if at { (ac, ar) } else { (ar, ac) };
